@@ -83,7 +83,8 @@ def length_programs(tier):
         nodes = [n for n in nodes if sum(1 for o in n.ops if o.startswith(("shuffle", "drop_duplicates"))) < 2]
         extra = ["L.partitions[[1]]", "L.partitions[[2, 0]]", "(L + 1).partitions[[1, 2]]", "L.a", "L.index", "dx.concat([L, L])", "L.merge(R, on='a')", "L.a.to_frame()", "L[['a']].fillna(1).partitions[[0]]"]
         R2 = Src("R", 4, {"a": "i", "b": "f", "e": "i"}, nparts + 1)
-        unaligned = ["L.b.fillna(R.b)", "L.a.mask(L.a > 1, R.a)", "L.a.where(L.a > 1, R.e)", "L.a + R.a", "L.assign(z=R.e)", "L[['a']].fillna(R[['a']])"]
+        unaligned = ["dx.concat([L[['a']], R[['e']]], axis=1)", "dx.concat([L[['a']], R[['e']]], axis=1, join='inner')", "dx.concat([R.e, L.a, L.c], axis=1)", "dx.concat([L.a, L.c + 1], axis=1)",
+                     "L.b.fillna(R.b)", "L.a.mask(L.a > 1, R.a)", "L.a.where(L.a > 1, R.e)", "L.a + R.a", "L.assign(z=R.e)", "L[['a']].fillna(R[['a']])"]
         for text in unaligned:
             for wrap in ("LEN({})", "({}).size"):
                 progs.append(Program(wrap.format(text), [srcs[0], R2], ordered=False, family="F06-len", note="unaligned/" + ("LEN" if "LEN" in wrap else "size") , env_globals=g))
